@@ -19,8 +19,12 @@ Inductive rsn := RU | RT.                (* woken by unpark / by timeout-or-canc
 Record act := { apc : pc; ab : nat; aw : nat; actx : ctx; atimed : bool; acomp : bool (* ghost: the pending fetch_add is a re-post on behalf of a waiter that left *) }.
 Record blk := { tok : bool; parked : bool; reason : option rsn; unp : bool; rel : bool; owner : nat }.
 Record st := { cnt : Z; q : list nat; nextb : nat; A : nat -> act; Bk : nat -> blk;
-               ini : Z; uposts : Z; succ : Z;       (* ghost: initial value, completed user posts, successful waits *)
-               debt : Z }.                          (* ghost: registered waiters whose -1 is still in cnt and who have not succeeded *)
+               ini : Z; uposts : Z; succ : Z;       (* ghost: initial value, user posts (at their fetch_add), successful waits *)
+               ung : list nat;    (* ghost: registered, unsettled blockers not yet flagged *)
+               giv : list nat;    (* ghost: registered, unsettled blockers that carry a permit (flag set) *)
+               pre : list nat;    (* ghost: blockers flagged before their owner's fetch_sub *)
+               hand : list nat;   (* ghost: agents that owe a wake-up (between their fetch and the flag store) *)
+               owe : list nat }.  (* ghost: actors that owe a re-post (decided, fetch_add not yet done) *)
 
 Definition upd {X} (f : nat -> X) i v := fun j => if Nat.eqb j i then v else f j.
 Definition fresh (o : nat) := {| tok := false; parked := false; reason := None; unp := false; rel := false; owner := o |}.
@@ -31,24 +35,25 @@ Definition ret_pc (c : ctx) := match c with RUser => Idle | RErr => Idle | RPark
 Inductive action := Wait (a : nat) (timed : bool) | TryWait (a : nat) | Post (a : nat) | Step (a : nat) | Fire (a : nat).
    (* Fire a: the timer or a cancel() hits the parked actor a *)
 
-Definition mk c q' n A' B' i u su d := {| cnt := c; q := q'; nextb := n; A := A'; Bk := B'; ini := i; uposts := u; succ := su; debt := d |}.
+Definition mk c q' n A' B' i u su l1 l2 l3 l4 l5 := {| cnt := c; q := q'; nextb := n; A := A'; Bk := B'; ini := i; uposts := u; succ := su; ung := l1; giv := l2; pre := l3; hand := l4; owe := l5 |}.
+Definition rm := remove Nat.eq_dec.
 
 Definition step (s : st) (ac : action) : option st :=
   match ac with
   | Wait a timed => match apc (A s a) with
-      | Idle => Some (mk (cnt s) (q s) (nextb s) (upd (A s) a {| apc := W0; ab := ab (A s a); aw := aw (A s a); actx := RUser; atimed := timed; acomp := false |}) (Bk s) (ini s) (uposts s) (succ s) (debt s))
+      | Idle => Some (mk (cnt s) (q s) (nextb s) (upd (A s) a {| apc := W0; ab := ab (A s a); aw := aw (A s a); actx := RUser; atimed := timed; acomp := false |}) (Bk s) (ini s) (uposts s) (succ s) (ung s) (giv s) (pre s) (hand s) (owe s))
       | _ => None end
   | TryWait a => match apc (A s a) with
-      | Idle => Some (mk (cnt s) (q s) (nextb s) (upd (A s) a (set_pc (A s a) Y0)) (Bk s) (ini s) (uposts s) (succ s) (debt s))
+      | Idle => Some (mk (cnt s) (q s) (nextb s) (upd (A s) a (set_pc (A s a) Y0)) (Bk s) (ini s) (uposts s) (succ s) (ung s) (giv s) (pre s) (hand s) (owe s))
       | _ => None end
   | Post a => match apc (A s a) with
-      | Idle => Some (mk (cnt s) (q s) (nextb s) (upd (A s) a (set_ctx (A s a) P0 RUser false)) (Bk s) (ini s) (uposts s) (succ s) (debt s))
+      | Idle => Some (mk (cnt s) (q s) (nextb s) (upd (A s) a (set_ctx (A s a) P0 RUser false)) (Bk s) (ini s) (uposts s) (succ s) (ung s) (giv s) (pre s) (hand s) (owe s))
       | _ => None end
   | Fire a =>
       let x := A s a in let b := Bk s (ab x) in
       match apc x, reason b with
       | WW, None => if atimed x
-                    then Some (mk (cnt s) (q s) (nextb s) (A s) (upd (Bk s) (ab x) {| tok := tok b; parked := parked b; reason := Some RT; unp := unp b; rel := rel b; owner := owner b |}) (ini s) (uposts s) (succ s) (debt s))
+                    then Some (mk (cnt s) (q s) (nextb s) (A s) (upd (Bk s) (ab x) {| tok := tok b; parked := parked b; reason := Some RT; unp := unp b; rel := rel b; owner := owner b |}) (ini s) (uposts s) (succ s) (ung s) (giv s) (pre s) (hand s) (owe s))
                     else None
       | _, _ => None end
   | Step a =>
@@ -57,53 +62,60 @@ Definition step (s : st) (ac : action) : option st :=
       | Idle => None
       | W0 | Y0 =>          (* try_wait: the CAS loop succeeds iff the value is positive *)
           if Z.ltb 0 (cnt s)
-          then Some (mk (cnt s - 1) (q s) (nextb s) (upd (A s) a (set_pc x Idle)) (Bk s) (ini s) (uposts s) (succ s + 1) (debt s))
-          else Some (mk (cnt s) (q s) (nextb s) (upd (A s) a (set_pc x (match apc x with W0 => W1 | _ => Idle end))) (Bk s) (ini s) (uposts s) (succ s) (debt s))
+          then Some (mk (cnt s - 1) (q s) (nextb s) (upd (A s) a (set_pc x Idle)) (Bk s) (ini s) (uposts s) (succ s + 1) (ung s) (giv s) (pre s) (hand s) (owe s))
+          else Some (mk (cnt s) (q s) (nextb s) (upd (A s) a (set_pc x (match apc x with W0 => W1 | _ => Idle end))) (Bk s) (ini s) (uposts s) (succ s) (ung s) (giv s) (pre s) (hand s) (owe s))
       | W1 => let n := nextb s in
-          Some (mk (cnt s) (q s ++ [n]) (S n) (upd (A s) a {| apc := W2; ab := n; aw := aw x; actx := actx x; atimed := atimed x; acomp := acomp x |}) (upd (Bk s) n (fresh a)) (ini s) (uposts s) (succ s) (debt s))
-      | W2 => if Z.ltb 0 (cnt s)
-              then Some (mk (cnt s - 1) (q s) (nextb s) (upd (A s) a (set_ctx x K1 RPark false)) (Bk s) (ini s) (uposts s) (succ s) (debt s + 1))
-              else Some (mk (cnt s - 1) (q s) (nextb s) (upd (A s) a (set_pc x WP)) (Bk s) (ini s) (uposts s) (succ s) (debt s + 1))
+          Some (mk (cnt s) (q s ++ [n]) (S n) (upd (A s) a {| apc := W2; ab := n; aw := aw x; actx := actx x; atimed := atimed x; acomp := acomp x |}) (upd (Bk s) n (fresh a)) (ini s) (uposts s) (succ s) (ung s) (giv s) (pre s) (hand s) (owe s))
+      | W2 => (* registration: if the blocker was already flagged (popped early) it becomes a given one *)
+              let ung' := if unp b then ung s else ab x :: ung s in
+              let giv' := if unp b then ab x :: giv s else giv s in
+              let pre' := if unp b then rm (ab x) (pre s) else pre s in
+              if Z.ltb 0 (cnt s)
+              then Some (mk (cnt s - 1) (q s) (nextb s) (upd (A s) a (set_ctx x K1 RPark false)) (Bk s) (ini s) (uposts s) (succ s) ung' giv' pre' (a :: hand s) (owe s))
+              else Some (mk (cnt s - 1) (q s) (nextb s) (upd (A s) a (set_pc x WP)) (Bk s) (ini s) (uposts s) (succ s) ung' giv' pre' (hand s) (owe s))
       | P0 => let u' := if acomp x then uposts s else uposts s + 1 in
-              let d' := if acomp x then debt s - 1 else debt s in
+              let owe' := if acomp x then rm a (owe s) else owe s in
               if Z.ltb (cnt s) 0
-              then Some (mk (cnt s + 1) (q s) (nextb s) (upd (A s) a (set_pc x K1)) (Bk s) (ini s) u' (succ s) d')
-              else Some (mk (cnt s + 1) (q s) (nextb s) (upd (A s) a (set_pc x (ret_pc (actx x)))) (Bk s) (ini s) u' (succ s) d')
+              then Some (mk (cnt s + 1) (q s) (nextb s) (upd (A s) a (set_pc x K1)) (Bk s) (ini s) u' (succ s) (ung s) (giv s) (pre s) (a :: hand s) owe')
+              else Some (mk (cnt s + 1) (q s) (nextb s) (upd (A s) a (set_pc x (ret_pc (actx x)))) (Bk s) (ini s) u' (succ s) (ung s) (giv s) (pre s) (hand s) owe')
       | K1 => match q s with
               | [] => None
-              | v :: q' => Some (mk (cnt s) q' (nextb s) (upd (A s) a {| apc := K2; ab := ab x; aw := v; actx := actx x; atimed := atimed x; acomp := acomp x |}) (Bk s) (ini s) (uposts s) (succ s) (debt s))
+              | v :: q' => Some (mk (cnt s) q' (nextb s) (upd (A s) a {| apc := K2; ab := ab x; aw := v; actx := actx x; atimed := atimed x; acomp := acomp x |}) (Bk s) (ini s) (uposts s) (succ s) (ung s) (giv s) (pre s) (hand s) (owe s))
               end
-      | K2 => Some (mk (cnt s) (q s) (nextb s) (upd (A s) a (set_pc x K3))
-                      (upd (Bk s) (aw x) {| tok := tok w; parked := parked w; reason := reason w; unp := true; rel := rel w; owner := owner w |}) (ini s) (uposts s) (succ s) (debt s))
+      | K2 => (* flag store: the permit in hand passes to blocker aw *)
+              let isreg := if in_dec Nat.eq_dec (aw x) (ung s) then true else false in
+              Some (mk (cnt s) (q s) (nextb s) (upd (A s) a (set_pc x K3))
+                      (upd (Bk s) (aw x) {| tok := tok w; parked := parked w; reason := reason w; unp := true; rel := rel w; owner := owner w |}) (ini s) (uposts s) (succ s)
+                      (rm (aw x) (ung s)) (if isreg then aw x :: giv s else giv s) (if isreg then pre s else aw x :: pre s) (rm a (hand s)) (owe s))
       | K3 => Some (mk (cnt s) (q s) (nextb s) (upd (A s) a (set_pc x K4))
-                      (upd (Bk s) (aw x) {| tok := true; parked := parked w; reason := (if parked w then match reason w with None => Some RU | r => r end else reason w); unp := unp w; rel := rel w; owner := owner w |}) (ini s) (uposts s) (succ s) (debt s))
+                      (upd (Bk s) (aw x) {| tok := true; parked := parked w; reason := (if parked w then match reason w with None => Some RU | r => r end else reason w); unp := unp w; rel := rel w; owner := owner w |}) (ini s) (uposts s) (succ s) (ung s) (giv s) (pre s) (hand s) (owe s))
       | K4 => if rel w
               then Some (mk (cnt s) (q s) (nextb s) (upd (A s) a (set_ctx x P0 (actx x) true))
-                          (upd (Bk s) (aw x) {| tok := tok w; parked := parked w; reason := reason w; unp := unp w; rel := false; owner := owner w |}) (ini s) (uposts s) (succ s) (debt s))
-              else Some (mk (cnt s) (q s) (nextb s) (upd (A s) a (set_pc x (ret_pc (actx x)))) (Bk s) (ini s) (uposts s) (succ s) (debt s))
+                          (upd (Bk s) (aw x) {| tok := tok w; parked := parked w; reason := reason w; unp := unp w; rel := false; owner := owner w |}) (ini s) (uposts s) (succ s) (ung s) (rm (aw x) (giv s)) (pre s) (hand s) (a :: owe s))
+              else Some (mk (cnt s) (q s) (nextb s) (upd (A s) a (set_pc x (ret_pc (actx x)))) (Bk s) (ini s) (uposts s) (succ s) (ung s) (giv s) (pre s) (hand s) (owe s))
       | WP => if tok b
-              then Some (mk (cnt s) (q s) (nextb s) (upd (A s) a (set_pc x Idle)) (upd (Bk s) (ab x) {| tok := false; parked := parked b; reason := reason b; unp := unp b; rel := rel b; owner := owner b |}) (ini s) (uposts s) (succ s + 1) (debt s - 1))
-              else Some (mk (cnt s) (q s) (nextb s) (upd (A s) a (set_pc x WW)) (upd (Bk s) (ab x) {| tok := tok b; parked := true; reason := None; unp := unp b; rel := rel b; owner := owner b |}) (ini s) (uposts s) (succ s) (debt s))
+              then Some (mk (cnt s) (q s) (nextb s) (upd (A s) a (set_pc x Idle)) (upd (Bk s) (ab x) {| tok := false; parked := parked b; reason := reason b; unp := unp b; rel := rel b; owner := owner b |}) (ini s) (uposts s) (succ s + 1) (ung s) (rm (ab x) (giv s)) (pre s) (hand s) (owe s))
+              else Some (mk (cnt s) (q s) (nextb s) (upd (A s) a (set_pc x WW)) (upd (Bk s) (ab x) {| tok := tok b; parked := true; reason := None; unp := unp b; rel := rel b; owner := owner b |}) (ini s) (uposts s) (succ s) (ung s) (giv s) (pre s) (hand s) (owe s))
       | WW => match reason b with
               | None => None
-              | Some RU => Some (mk (cnt s) (q s) (nextb s) (upd (A s) a (set_pc x Idle)) (upd (Bk s) (ab x) {| tok := false; parked := false; reason := None; unp := unp b; rel := rel b; owner := owner b |}) (ini s) (uposts s) (succ s + 1) (debt s - 1))
-              | Some RT => Some (mk (cnt s) (q s) (nextb s) (upd (A s) a (set_pc x E1)) (upd (Bk s) (ab x) {| tok := false; parked := false; reason := None; unp := unp b; rel := rel b; owner := owner b |}) (ini s) (uposts s) (succ s) (debt s))
+              | Some RU => Some (mk (cnt s) (q s) (nextb s) (upd (A s) a (set_pc x Idle)) (upd (Bk s) (ab x) {| tok := false; parked := false; reason := None; unp := unp b; rel := rel b; owner := owner b |}) (ini s) (uposts s) (succ s + 1) (ung s) (rm (ab x) (giv s)) (pre s) (hand s) (owe s))
+              | Some RT => Some (mk (cnt s) (q s) (nextb s) (upd (A s) a (set_pc x E1)) (upd (Bk s) (ab x) {| tok := false; parked := false; reason := None; unp := unp b; rel := rel b; owner := owner b |}) (ini s) (uposts s) (succ s) (ung s) (giv s) (pre s) (hand s) (owe s))
               end
       | E1 => if unp b
-              then Some (mk (cnt s) (q s) (nextb s) (upd (A s) a (set_ctx x P0 RErr true)) (Bk s) (ini s) (uposts s) (succ s) (debt s))
-              else Some (mk (cnt s) (q s) (nextb s) (upd (A s) a (set_pc x E2)) (Bk s) (ini s) (uposts s) (succ s) (debt s))
-      | E2 => Some (mk (cnt s) (q s) (nextb s) (upd (A s) a (set_pc x E3)) (upd (Bk s) (ab x) {| tok := tok b; parked := parked b; reason := reason b; unp := unp b; rel := true; owner := owner b |}) (ini s) (uposts s) (succ s) (debt s))
+              then Some (mk (cnt s) (q s) (nextb s) (upd (A s) a (set_ctx x P0 RErr true)) (Bk s) (ini s) (uposts s) (succ s) (ung s) (rm (ab x) (giv s)) (pre s) (hand s) (a :: owe s))
+              else Some (mk (cnt s) (q s) (nextb s) (upd (A s) a (set_pc x E2)) (Bk s) (ini s) (uposts s) (succ s) (ung s) (giv s) (pre s) (hand s) (owe s))
+      | E2 => Some (mk (cnt s) (q s) (nextb s) (upd (A s) a (set_pc x E3)) (upd (Bk s) (ab x) {| tok := tok b; parked := parked b; reason := reason b; unp := unp b; rel := true; owner := owner b |}) (ini s) (uposts s) (succ s) (ung s) (giv s) (pre s) (hand s) (owe s))
       | E3 => if unp b
-              then Some (mk (cnt s) (q s) (nextb s) (upd (A s) a (set_pc x E4)) (Bk s) (ini s) (uposts s) (succ s) (debt s))
-              else Some (mk (cnt s) (q s) (nextb s) (upd (A s) a (set_pc x Idle)) (Bk s) (ini s) (uposts s) (succ s) (debt s))
+              then Some (mk (cnt s) (q s) (nextb s) (upd (A s) a (set_pc x E4)) (Bk s) (ini s) (uposts s) (succ s) (ung s) (giv s) (pre s) (hand s) (owe s))
+              else Some (mk (cnt s) (q s) (nextb s) (upd (A s) a (set_pc x Idle)) (Bk s) (ini s) (uposts s) (succ s) (ung s) (giv s) (pre s) (hand s) (owe s))
       | E4 => if rel b
-              then Some (mk (cnt s) (q s) (nextb s) (upd (A s) a (set_ctx x P0 RErr true)) (upd (Bk s) (ab x) {| tok := tok b; parked := parked b; reason := reason b; unp := unp b; rel := false; owner := owner b |}) (ini s) (uposts s) (succ s) (debt s))
-              else Some (mk (cnt s) (q s) (nextb s) (upd (A s) a (set_pc x Idle)) (Bk s) (ini s) (uposts s) (succ s) (debt s))
+              then Some (mk (cnt s) (q s) (nextb s) (upd (A s) a (set_ctx x P0 RErr true)) (upd (Bk s) (ab x) {| tok := tok b; parked := parked b; reason := reason b; unp := unp b; rel := false; owner := owner b |}) (ini s) (uposts s) (succ s) (ung s) (rm (ab x) (giv s)) (pre s) (hand s) (a :: owe s))
+              else Some (mk (cnt s) (q s) (nextb s) (upd (A s) a (set_pc x Idle)) (Bk s) (ini s) (uposts s) (succ s) (ung s) (giv s) (pre s) (hand s) (owe s))
       end
   end.
 
 Definition act0 := {| apc := Idle; ab := 0; aw := 0; actx := RUser; atimed := false; acomp := false |}.
-Definition init (i : Z) : st := mk i [] 1 (fun _ => act0) (fun _ => fresh 0) i 0 0 0.
+Definition init (i : Z) : st := mk i [] 1 (fun _ => act0) (fun _ => fresh 0) i 0 0 [] [] [] [] [].
 Inductive Reach (i : Z) : st -> Prop :=
 | R0 : Reach i (init i)
 | RS s a s' : Reach i s -> step s a = Some s' -> Reach i s'.
